@@ -418,3 +418,49 @@ pub fn gen_cancel(r: &mut Rng, sid: String, runtime: &str) -> Scenario {
         .collect();
     Scenario { sid, runtime: runtime.into(), inherited: false, conns, cancel_ms: 15, staggered: false }
 }
+
+// ------------------------------------------------------------------ identifiers under contention
+
+#[derive(Debug)]
+struct NullSock;
+#[derive(Debug)]
+struct NullR;
+#[derive(Debug)]
+struct NullW;
+impl zlink_core::connection::socket::Socket for NullSock {
+    type ReadHalf = NullR;
+    type WriteHalf = NullW;
+    fn split(self) -> (NullR, NullW) {
+        (NullR, NullW)
+    }
+}
+impl zlink_core::connection::socket::ReadHalf for NullR {
+    async fn read(&mut self, _buf: &mut [u8]) -> zlink_core::Result<usize> {
+        Ok(0)
+    }
+}
+impl zlink_core::connection::socket::WriteHalf for NullW {
+    async fn write(&mut self, _buf: &[u8]) -> zlink_core::Result<()> {
+        Ok(())
+    }
+}
+
+/// Connections created on several threads at once (accept loops and clients of a multi-threaded
+/// runtime do that): every identifier handed out must be different from every other.
+pub fn id_burst(threads: usize, per: usize) {
+    let barrier = std::sync::Arc::new(std::sync::Barrier::new(threads));
+    let handles: Vec<_> = (0..threads)
+        .map(|_| {
+            let b = barrier.clone();
+            std::thread::spawn(move || {
+                b.wait();
+                (0..per).map(|_| zlink_core::Connection::new(NullSock).id()).collect::<Vec<usize>>()
+            })
+        })
+        .collect();
+    let mut all: Vec<usize> = handles.into_iter().flat_map(|h| h.join().unwrap_or_default()).collect();
+    let total = all.len();
+    all.sort_unstable();
+    all.dedup();
+    ev(json!({"ev":"idburst","threads":threads,"per":per,"total":total,"distinct":all.len()}));
+}
